@@ -53,6 +53,10 @@ def indicators(recipe, n, theta, two):
         v = recipe['vals']
         eta = [1e-3 * float(v[k % len(v)]) for k in range(m)]
         eta[recipe['pos'] % m] = 1.0
+    elif r == 'allbut':
+        # everything marked except one entry: indicators in [1, 2] apart from one negligible one, theta close to 1
+        eta = [1.0 + ((k * 37) % 64) / 64.0 for k in range(m)]
+        eta[recipe['pos'] % m] = 1e-9
     elif r == 'thresh':
         eta = [0.0] * m
         s = float(recipe.get('scale', 1.0))
@@ -344,6 +348,18 @@ def run(ctx):
                   'marks': [[kind, 0.5, {'r': 'exact', 'pos': pos, 'mag': [0, -34][pos % 2]}]]}, rec)
             rec.add('exact_threshold_cases')
         body({'kind': 'bfs', 'mesh': meshdrive.BFS_MESHES[mno], 'seq': seq, 'marks': [[kind, 0.5, {'r': 'equal', 'val': 1.0}]]}, rec)
+    # large meshes (262 and 520 leaves): all leaves but one marked; several hundred space bisections in one call
+    big = []
+    for kind in ('iso', 'aniso'):
+        for n_unif, theta, pos in ((3, 0.999, 5), (3, 0.999, 200), (3, 0.95, 77)):
+            big.append({'kind': 'history', 'mesh': {'kind': 'param', 'curve': 'UnitSquare', 'ts': [0.0, 1.0], 'xs': None},
+                        'ops': [['unif']] * n_unif + [['x', ['any', 5]], ['t', ['any', 17]]],
+                        'marks': [[kind, theta, {'r': 'allbut', 'pos': pos}]]})
+        big.append({'kind': 'history', 'mesh': {'kind': 'param', 'curve': 'UnitSquare', 'ts': [0.0, 1.0], 'xs': None},
+                    'ops': [['unif']] * 3 + [['unifx']] + [['x', ['any', 5]]],
+                    'marks': [[kind, 0.95, {'r': 'cyc', 'vals': [1.0, 0.3, 0.7, 0.2, 0.9, 0.55, 0.8], 'off': 0}]]})
+    for case in ctx.mine(big):
+        body(case, rec)
     n = ctx.share(2400 if ctx.quick else 24000)
     explore(ctx, cases(20 if ctx.quick else 50), body, n)
 
